@@ -32,7 +32,7 @@ BOUNDS = {
 }
 OUTSIDE = ["bounds produced by protocols / generic user classes (need the visitor and attribute lookup)", "ParamSpec solving"]
 STUBS = ["stub atoms with a symbolic preorder", "_CanAssignBasedContext with the real Checker collects the errors"]
-ASSUMPTIONS = ["at the solver entry point (h15_bounds) only order independence of the verdict and 'a solution accepts every lower bound' are claimed; 'a solution is accepted by every upper bound' is claimed at the call level only: the caller re-checks arguments against substituted parameter types (DESIGN.md section 5 C15)"]
+ASSUMPTIONS = ["reference acceptance between unions of atoms: vf/common.ref_accepts"]
 
 
 def prepare(template, data):
@@ -172,9 +172,8 @@ TVS = [("plain",), ("bound", 0), ("bound", 2), ("constr", 0, 1), ("constr", 1, 2
 # ----------------------------------------------------------------------------------------
 # H15c: the solver entry point itself (observe_at: typevar.resolve_bounds_map on public Bound objects): a multiset
 # of lower / upper bounds on one type variable, resolved in every order inside one path.  Obligations: the verdict
-# (error or solution) is the same in every order; a solution accepts every lower bound.  (That a solution is
-# accepted by every *upper* bound is asserted at the call level only - h15 - because the caller's second pass is
-# part of that guarantee; see ASSUMPTIONS.)
+# (error or solution) is the same in every order; a solution accepts every lower bound and is accepted by every
+# upper bound (known finding C15-K2 when there are several upper bounds).
 # ----------------------------------------------------------------------------------------
 
 
@@ -200,6 +199,7 @@ def h15_bounds(b0: bool, b1: bool, b2: bool, b3: bool, b4: bool, b5: bool) -> bo
     for kind, spec in G.case["bounds"]:
         v = _bval(spec, atoms)
         bounds.append(LowerBound(CC.T, v) if kind == "L" else UpperBound(CC.T, v))
+    n_upper = sum(1 for b in bounds if isinstance(b, UpperBound))
     verdict = None
     for perm in itertools.permutations(range(len(bounds))):
         tv_map, errors = resolve_bounds_map({CC.T: [bounds[i] for i in perm]}, ctx)
@@ -214,6 +214,12 @@ def h15_bounds(b0: bool, b1: bool, b2: bool, b3: bool, b4: bool, b5: bool) -> bo
                 continue
             for b in bounds:
                 if isinstance(b, LowerBound) and not ref_accepts(rel, S, b.value):
+                    return fin(False)
+            for b in bounds:
+                if isinstance(b, UpperBound) and not ref_accepts(rel, b.value, S):
+                    # known finding C15-K2: several upper bounds are united instead of intersected
+                    if excluded(feat_several_uppers=(n_upper >= 2), b0=b0, b1=b1, b2=b2, b3=b3, b4=b4, b5=b5):
+                        return skip()
                     return fin(False)
     return fin(True)
 
